@@ -699,6 +699,14 @@ pub fn check_main(engine: &'static dyn Engine, tier: &str) -> i32 {
         "runs_per_hour".into(),
         json!((agg.evaluations as f64 / wall.max(0.001) * 3600.0) as u64),
     );
+    coverage.insert(
+        "seeds_per_hour".into(),
+        json!((agg.evaluations as f64 / wall.max(0.001) * 3600.0) as u64),
+    );
+    coverage.insert(
+        "simulated_time".into(),
+        json!({"unit": "logical steps (evaluation steps counted by the hook + scheduled operations); the system has no clock", "steps": agg.steps}),
+    );
     coverage.insert("counters".into(), json!(agg.counters));
     coverage.insert("discarded".into(), json!(agg.discarded));
     coverage.insert(
